@@ -466,8 +466,12 @@ pub const SHAPE_COLS: [usize; 6] = [1, 2, 3, 4, 6, 8];
 pub const SHAPE_PIS: [usize; 3] = [0, 1, 3];
 
 pub fn supported_shape(cols: usize, pis: usize) -> bool {
-    SHAPE_COLS.contains(&cols) && SHAPE_PIS.contains(&pis)
+    (SHAPE_COLS.contains(&cols) && SHAPE_PIS.contains(&pis)) || SHAPE_WIDE.contains(&(cols, pis))
 }
+/// Wide shapes: 2 * columns exceeds the number of powers one simulated opening point supplies when the
+/// verifier binds the constraints before the quotient commitment (starky get_dummy_polys: 49 for
+/// constraint degree <= 1, 24 for degree 2-3, 15 for degree 4-7), so several points are drawn.
+pub const SHAPE_WIDE: [(usize, usize); 5] = [(9, 1), (13, 0), (13, 1), (16, 1), (26, 0)];
 
 /// Run `$body` with `$S` bound to the `ModelStark<COLS, PIS>` type that matches `$def`'s shape.
 /// `$body` is an expression that may use `$S::new($def)`; all arms must have the same type.
@@ -499,6 +503,11 @@ macro_rules! with_model_stark {
             (8, 0) => __arm!(8, 0),
             (8, 1) => __arm!(8, 1),
             (8, 3) => __arm!(8, 3),
+            (9, 1) => __arm!(9, 1),
+            (13, 0) => __arm!(13, 0),
+            (13, 1) => __arm!(13, 1),
+            (16, 1) => __arm!(16, 1),
+            (26, 0) => __arm!(26, 0),
             (c, p) => panic!("model STARK shape ({c}, {p}) is not instantiated"),
         }
     }};
@@ -705,6 +714,53 @@ fn gen_wide8(n: usize, ch: usize) -> (Rows, Vec<u64>) {
     (from_cols(vec![c0, c1, c2, c3, c4, c5, c6, c7]), pis)
 }
 
+/// Wide chains: column 0 counts up from the public input, column j = column j-1 * column 0 on every
+/// row; with `LASTPOW > 0` the last column instead iterates x -> x^LASTPOW (its first cell is free).
+fn wide_mul_terms(cols: usize, lastpow: usize) -> Vec<Term> {
+    use Atom::*;
+    use Kind::*;
+    let mut t = vec![term(FirstRow, &[&[Pi(0)]], Local(0)), term(Transition, &[&[Local(0)], &[Const(1)]], Next(0))];
+    let chain_end = if lastpow > 0 { cols - 1 } else { cols };
+    for j in 1..chain_end {
+        t.push(term(EveryRow, &[&[Local(j - 1), Local(0)]], Local(j)));
+    }
+    if lastpow > 0 {
+        t.push(term(Transition, &[&vec![Local(cols - 1); lastpow][..]], Next(cols - 1)));
+    }
+    t
+}
+fn gen_wide_mul<const C: usize, const LASTPOW: usize>(n: usize, ch: usize) -> (Rows, Vec<u64>) {
+    let s = SEEDS3[ch][0];
+    let c0 = counter_col(n, s);
+    let mut cols = vec![c0.clone()];
+    let chain_end = if LASTPOW > 0 { C - 1 } else { C };
+    for j in 1..chain_end {
+        let prev = cols[j - 1].clone();
+        cols.push((0..n).map(|r| mulm(prev[r], c0[r])).collect());
+    }
+    if LASTPOW > 0 {
+        let mut c = vec![POW_SEEDS3[ch]];
+        for r in 1..n {
+            c.push(powm(c[r - 1], LASTPOW as u128));
+        }
+        cols.push(c);
+    }
+    (from_cols(cols), vec![s])
+}
+/// 26 columns, unfiltered linear constraints only: column j = 3 * column j-1 + j; column 0 is free.
+fn wide_lin_terms(cols: usize) -> Vec<Term> {
+    use Atom::*;
+    (1..cols).map(|j| term(Kind::EveryRow, &[&[Const(3), Local(j - 1)], &[Const(j as u64)]], Local(j))).collect()
+}
+fn gen_wide_lin<const C: usize>(n: usize, ch: usize) -> (Rows, Vec<u64>) {
+    let mut cols = vec![filler(n, 0, ch)];
+    for j in 1..C {
+        let prev = cols[j - 1].clone();
+        cols.push((0..n).map(|r| addm(mulm(3, prev[r]), j as u64)).collect());
+    }
+    (from_cols(cols), vec![])
+}
+
 /// The model-STARK family (every member validated by `validate_def` in the engines' self-checks).
 pub fn family() -> Vec<Member> {
     use Atom::*;
@@ -813,6 +869,11 @@ pub fn family() -> Vec<Member> {
             }),
             gen_wide8,
         ),
+        // wide members (appended last: engines that pick "the first members with ..." are unaffected)
+        m(Def::new("wide13_p1", 13, 1, 2, wide_mul_terms(13, 0)), gen_wide_mul::<13, 0>),
+        m(Def::new("wide16_d3_p1", 16, 1, 3, wide_mul_terms(16, 2)), gen_wide_mul::<16, 2>),
+        m(Def::new("wide9_d5_p1", 9, 1, 5, wide_mul_terms(9, 4)), gen_wide_mul::<9, 4>),
+        m(Def::new("wide26_lin", 26, 0, 1, wide_lin_terms(26)), gen_wide_lin::<26>),
     ]
 }
 
@@ -1609,6 +1670,16 @@ fn plain_lookup(looking: &[usize], table: usize, freq: usize) -> LookupSpec {
 /// with constant / next-row; filters none / single boolean column / product; tables counter /
 /// permuted range / repeated values / large values; two lookups in one STARK; lookups next to
 /// ordinary constraint terms.
+fn gen_lk1_wide13(n: usize, ch: usize) -> (Rows, Vec<u64>) {
+    let (mut rows, pis) = gen_lk1_counter(n, ch);
+    for c in 3..13 {
+        let f = filler(n, c, ch);
+        for (r, row) in rows.iter_mut().enumerate() {
+            row.push(f[r]);
+        }
+    }
+    (rows, pis)
+}
 pub fn lookup_family() -> Vec<Member> {
     use Atom::*;
     use Kind::*;
@@ -1637,6 +1708,8 @@ pub fn lookup_family() -> Vec<Member> {
     tn.table = ColSpec::single_next(1);
     v.push(m(lookup_def("lk_table_nextrow_d2", 3, 2, vec![tn], vec![]), gen_lk1_perm));
     v.push(m(lookup_def("lk_two_d3", 6, 3, vec![plain_lookup(&[0], 1, 2), plain_lookup(&[3], 4, 5)], vec![]), gen_lk_two));
+    // wide: 2 * (13 trace + 2 auxiliary polynomials) simulated openings need two simulated points
+    v.push(m(lookup_def("lk1_wide13_d2", 13, 2, vec![plain_lookup(&[0], 1, 2)], vec![]), gen_lk1_wide13));
     // the table column is additionally pinned to be the counter 0, 1, 2, ... by ordinary constraints
     v.push(m(
         lookup_def(
